@@ -220,14 +220,14 @@ def make_class(specs):
         attrs[pn] = Parameter('generated', dt, readonly=readonly, update_unchanged=uu, **kw)
 
         def rfunc(self, pn=pn):
-            r = self.script[_threading.get_ident(), pn, 'r']
+            r = run_body(self, pn, self.script[_threading.get_ident(), pn, 'r'])
             if isinstance(r, BaseException):
                 raise r
             return r
         attrs['read_' + pn] = rfunc
         if has_write:
             def wfunc(self, value, pn=pn):
-                r = self.script[_threading.get_ident(), pn, 'w']
+                r = run_body(self, pn, self.script[_threading.get_ident(), pn, 'w'])
                 if isinstance(r, BaseException):
                     raise r
                 return r
@@ -241,7 +241,30 @@ def make_class(specs):
             attrs['check_' + pn] = cfunc
     cls = type('Gen', (Module,), attrs)
     cls.script = None
+    cls.observe = None
     return cls
+
+
+class Body:
+    """what the body of a generated read_<p> / write_<p> does: it assigns the parameter (any number of times: a driver that
+    takes a value over, reports intermediate values, ...), then it returns or raises `result`"""
+
+    def __init__(self, inner, result):
+        self.inner = inner
+        self.result = result
+
+
+def run_body(mod, pn, r):
+    if isinstance(r, Body):
+        for v in r.inner:
+            try:
+                setattr(mod, pn, v)
+            except Exception:
+                pass
+            if mod.observe is not None:
+                mod.observe()          # the driver looks at the connections and the cache between its own calls of the funnel
+        return r.result
+    return r
 
 
 class _NoDefault:
@@ -289,33 +312,67 @@ def pool_size(kind):
     return len(valid), len(valid) + len(invalid)
 
 
-def do_op(m, case, pid, op, errs):
+def split_inner(op):
+    """['inner', [value indices], base operation] -> (indices, base); any other operation has no inner assignments"""
+    if op[0] == 'inner':
+        return list(op[1]), op[2]
+    return [], op
+
+
+def change_datum(dt, raw):
+    """what a client sends in a `change` request for the pool value `raw`: the exported form when there is one"""
+    try:
+        return dt.export_value(dt(raw))
+    except Exception:
+        return raw
+
+
+def change_import(dt, raw):
+    """(True, value handed on by `import_value`) or (False, None) when `import_value` refuses the datum"""
+    try:
+        return True, dt.import_value(change_datum(dt, raw))
+    except Exception:
+        return False, None
+
+
+def do_op(m, case, pid, op, errs, node=None, conns=None):
     """perform one operation on the real module; exceptions of the operation are part of the behaviour"""
     from frappy.modulebase import Done
     pn = PNAMES[pid]
     me = _threading.get_ident()
+    inner_idx, op = split_inner(op)
+    inner = [raw_of(case, pid, i) for i in inner_idx]
+    body = (lambda r: Body(inner, r)) if inner else (lambda r: r)
     kind = op[0]
     try:
-        if kind == 'read':
-            if op[1] == 'ret':
-                m.script[me, pn, 'r'] = raw_of(case, pid, op[2])
-            elif op[1] == 'raise':
-                m.script[me, pn, 'r'] = clone_error(errs[op[2] % len(errs)])
+        if kind in ('read', 'rread'):
+            res = op[1:] if kind == 'read' else op[2:]
+            if res[0] == 'ret':
+                m.script[me, pn, 'r'] = body(raw_of(case, pid, res[1]))
+            elif res[0] == 'raise':
+                m.script[me, pn, 'r'] = body(clone_error(errs[res[1] % len(errs)]))
             else:
-                m.script[me, pn, 'r'] = Done
-            getattr(m, 'read_' + pn)()
-        elif kind == 'write':
-            _, ridx, ck, w = op
+                m.script[me, pn, 'r'] = body(Done)
+            if kind == 'read':
+                getattr(m, 'read_' + pn)()
+            else:      # the same through the dispatcher: a `read` request of connection op[1]
+                node.request(conns[op[1] % len(conns)], 'read', 'm:_' + pn, None)
+        elif kind in ('write', 'change'):
+            ridx, ck, w = op[1:] if kind == 'write' else op[2:]
             m.script[me, pn, 'c'] = RuntimeError('check') if ck == 'raise' else (ck == 'stop')
             if w[0] == 'ret':
-                m.script[me, pn, 'w'] = raw_of(case, pid, w[1])
+                m.script[me, pn, 'w'] = body(raw_of(case, pid, w[1]))
             elif w[0] == 'raise':
-                m.script[me, pn, 'w'] = clone_error(errs[w[1] % len(errs)])
+                m.script[me, pn, 'w'] = body(clone_error(errs[w[1] % len(errs)]))
             elif w[0] == 'done':
-                m.script[me, pn, 'w'] = Done
+                m.script[me, pn, 'w'] = body(Done)
             else:
-                m.script[me, pn, 'w'] = None
-            getattr(m, 'write_' + pn)(raw_of(case, pid, ridx))
+                m.script[me, pn, 'w'] = body(None)
+            if kind == 'write':
+                getattr(m, 'write_' + pn)(raw_of(case, pid, ridx))
+            else:      # a `change` request of connection op[1]
+                node.request(conns[op[1] % len(conns)], 'change', 'm:_' + pn,
+                             change_datum(m.parameters[pn].datatype, raw_of(case, pid, ridx)))
         elif kind == 'assign':
             setattr(m, pn, raw_of(case, pid, op[1]))
         elif kind == 'hidden':
@@ -348,17 +405,22 @@ def clone_error(e):
     return type(e)(*e.args)
 
 
-def wire_op(ids, case, pid, op, errs):
+def wire_op(ids, case, pid, op, errs, nconn=1):
     """the operation as the Lean side sees it (numbers instead of Python objects)"""
+    inner_idx, base = split_inner(op)
+    if inner_idx:
+        return ['inner', [ids.vid(pid, raw_of(case, pid, i)) for i in inner_idx], wire_op(ids, case, pid, base, errs, nconn)]
     kind = op[0]
-    if kind == 'read':
-        if op[1] == 'ret':
-            return ['read', 'ret', ids.vid(pid, raw_of(case, pid, op[2]))]
-        if op[1] == 'raise':
-            return ['read', 'raise', ids.eid(errs[op[2] % len(errs)])]
-        return ['read', 'done']
-    if kind == 'write':
-        _, ridx, ck, w = op
+    if kind in ('read', 'rread'):
+        head = ['read'] if kind == 'read' else ['rread', op[1] % nconn + 1]
+        res = op[1:] if kind == 'read' else op[2:]
+        if res[0] == 'ret':
+            return head + ['ret', ids.vid(pid, raw_of(case, pid, res[1]))]
+        if res[0] == 'raise':
+            return head + ['raise', ids.eid(errs[res[1] % len(errs)])]
+        return head + ['done']
+    if kind in ('write', 'change'):
+        ridx, ck, w = op[1:] if kind == 'write' else op[2:]
         ps = case['params'][pid]
         checks_ok = not (ps['has_check'] and ck == 'raise')
         if not ps['has_write']:
@@ -371,7 +433,10 @@ def wire_op(ids, case, pid, op, errs):
             wres = ['done']
         else:
             wres = ['none']
-        return ['write', ids.vid(pid, raw_of(case, pid, ridx)), checks_ok, wres]
+        if kind == 'write':
+            return ['write', ids.vid(pid, raw_of(case, pid, ridx)), checks_ok, wres]
+        ok, imp = change_import(ids.dts[pid], raw_of(case, pid, ridx))
+        return ['change', op[1] % nconn + 1, bool(ps.get('readonly', False)), ids.vid(pid, imp) if ok else None, checks_ok, wres]
     if kind == 'assign':
         return ['assign', ids.vid(pid, raw_of(case, pid, op[1]))]
     if kind == 'hidden':
@@ -380,6 +445,10 @@ def wire_op(ids, case, pid, op, errs):
     value, validate = announce_arg(ids.dts[pid], case, pid, vidx, eidx, validate)
     return ['announce', None if vidx is None else ids.vid(pid, value),
             None if eidx is None else ids.eid(errs[eidx % len(errs)]), bool(validate)]
+
+
+def op_kind(op):
+    return split_inner(op)[1][0]
 
 
 def cache_obs(ids, m, pid):
@@ -427,7 +496,13 @@ def norm_steps(steps):
 
 
 def n_conns(steps):
-    return 1 + max(st[1][1] for st in steps if st[1][0] == 'activate')
+    """connections of a history: those that activate and those that send requests"""
+    n = 1
+    for st in steps:
+        base = split_inner(st[1])[1]
+        if base[0] in ('activate', 'change', 'rread'):
+            n = max(n, base[1] + 1)
+    return n
 
 
 def act_pids(op, npids):
@@ -491,6 +566,27 @@ def drop_loggers(node):
         del d[name]
 
 
+def pool_closure(dt, raws):
+    """the pool and what a `change` request makes of its values: `import_value` of the datum, and the validated value (the
+    write wrapper validates what `_setParameterValue` has validated already)"""
+    out = list(raws)
+    seen = {(type(r).__name__, repr(r)) for r in raws}
+    for raw in raws:
+        ok, imp = change_import(dt, raw)
+        cand = [imp] if ok else []
+        for _ in range(2):
+            try:
+                cand.append(dt.validate(cand[-1]))
+            except Exception:
+                break
+        for c in cand:
+            key = (type(c).__name__, repr(c))
+            if key not in seen:
+                seen.add(key)
+                out.append(c)
+    return out
+
+
 def prepare(case, errs):
     """ids, oracle tables and the initial entries of a freshly built node (the node is thrown away)"""
     clock = Clock(T0)
@@ -499,7 +595,7 @@ def prepare(case, errs):
     conv, valid = [], []
     for pid, ps in enumerate(case['params']):
         _, nall = pool_size(ps['kind'])
-        c, v = oracle_tables(ids, pid, dts[pid], [raw_of(case, pid, i) for i in range(nall)])
+        c, v = oracle_tables(ids, pid, dts[pid], pool_closure(dts[pid], [raw_of(case, pid, i) for i in range(nall)]))
         conv += c
         valid += v
         ids.vid(pid, m.parameters[PNAMES[pid]].value)
@@ -535,8 +631,15 @@ def impl_seq(case, errs, tables):
         real_window = int(round(m.parameters['p'].omit_unchanged_within * TICKS))
         init_py, init_x, _ = cache_obs(ids, m, 0)
         now = T0
-        ops, outs = [], []
-        for dt, op in steps:
+        ops, outs, fsteps = [], [], []
+
+        def point(si, extra=()):
+            # one observation point: what every connection received since the last one, and the cache
+            recv, other = drain_conns(ids, conns, spec_pid)
+            py, x, ts = cache_obs(ids, m, 0)
+            outs.append({'recv': recv, 'cache_py': py, 'cache_x': x, 'caches_x': [x], 'ts': ts, 'other': other + list(extra),
+                         'step': si})
+        for si, (dt, op) in enumerate(steps):
             now += dt
             clock.ticks = now
             failed = []
@@ -546,11 +649,12 @@ def impl_seq(case, errs, tables):
                 if reply[0] != 'active':
                     failed = ['activate:' + str(reply[0])]
             else:
-                ops.append({'now': now, 'op': wire_op(ids, case, 0, op, errs)})
-                do_op(m, case, 0, op, errs)
-            recv, other = drain_conns(ids, conns, spec_pid)
-            py, x, ts = cache_obs(ids, m, 0)
-            outs.append({'recv': recv, 'cache_py': py, 'cache_x': x, 'caches_x': [x], 'ts': ts, 'other': other + failed})
+                ops.append({'now': now, 'op': wire_op(ids, case, 0, op, errs, len(conns))})
+                m.observe = lambda si=si: (point(si), fsteps.append([0, ['body']]))
+                do_op(m, case, 0, op, errs, node, conns)
+                m.observe = None
+            point(si, failed)
+            fsteps.append([dt, op])
         main = next(st[1][1] for st in steps if st[1][0] == 'activate')
         for o in outs:
             o['msgs'] = [[ve, t] for _, ve, t in o['recv'][main]]
@@ -558,7 +662,7 @@ def impl_seq(case, errs, tables):
         req = {'p': 'C05', 'k': 'seq', 'eq': pairs, 'conv': conv, 'valid': valid, 'entry': entry, 'ops': ops,
                'cids': list(range(1, len(conns) + 1))}
         return {'req': req, 'outs': outs, 'init_x': init_x, 'init_py': init_py, 'ex': ex, 'bad_law': bad_law,
-                'real_window': real_window, 'steps': steps}
+                'real_window': real_window, 'steps': steps, 'fsteps': fsteps}
     finally:
         mb.time = saved
         if 'node' in locals():
@@ -587,32 +691,49 @@ def compare_seq(run, ans):
 
 
 def judge_reqs_seq(run):
-    return stream_judge_reqs(run['steps'], run['outs'], [run['init_x']], 1)
+    return stream_judge_reqs(run['fsteps'], run['outs'], [run['init_x']], 1)
 
 
-def first_bad(jreqs, answers):
-    """first stream the monitor rejects: (connection index, pid, step index, clause)"""
+def first_bad(jreqs, answers, outs=None):
+    """first stream the monitor rejects: (connection index, pid, step index, clause); with `outs` the index of the
+    observation point is turned into the index of the step of the history it belongs to"""
     for (ci, pid, first, _), jd in zip(jreqs, answers):
         if jd.get('bad') is not None:
-            return [ci, pid, first + jd['bad'][0], jd['bad'][1]]
+            at = first + jd['bad'][0]
+            return [ci, pid, outs[at]['step'] if outs is not None else at, jd['bad'][1]]
     return None
 
 
 def gen_op(rng, ps, nvalid, nall, nerr):
+    op = gen_base_op(rng, ps, nvalid, nall, nerr)
+    # a driver method that assigns the parameter itself before it returns / raises
+    if op[0] in ('read', 'write', 'change', 'rread') and rng.random() < 0.15:
+        val = lambda: rng.randrange(nvalid) if rng.random() < 0.85 else rng.randrange(nall)   # noqa: E731
+        op = ['inner', [val() for _ in range(rng.choice([1, 1, 2]))], op]
+    return op
+
+
+def gen_base_op(rng, ps, nvalid, nall, nerr):
     r = rng.random()
     val = lambda: rng.randrange(nvalid) if rng.random() < 0.8 else rng.randrange(nall)   # noqa: E731
-    if r < 0.30:
+    who = lambda: rng.choice([0, 0, 0, 1])                                                # noqa: E731
+    wres = lambda: rng.choice([['none'], ['none'], ['ret', val()], ['ret', val()], ['raise', rng.randrange(nerr)], ['done']])  # noqa: E731
+    if r < 0.26:
         return ['read', 'ret', val()]
-    if r < 0.45:
+    if r < 0.39:
         return ['read', 'raise', rng.choice([0, 0, 1, 3]) if rng.random() < 0.7 else rng.randrange(nerr)]
-    if r < 0.48:
+    if r < 0.42:
         return ['read', 'done']
-    if r < 0.66:
-        w = rng.choice([['none'], ['none'], ['ret', val()], ['ret', val()], ['raise', rng.randrange(nerr)], ['done']])
-        return ['write', val(), rng.choice(['ok', 'ok', 'ok', 'stop', 'raise']), w]
-    if r < 0.81:
+    if r < 0.56:
+        return ['write', val(), rng.choice(['ok', 'ok', 'ok', 'stop', 'raise']), wres()]
+    # the same through the dispatcher: `change` / `read` requests of a connection (usually one that listens itself)
+    if r < 0.65:
+        return ['change', who(), val(), rng.choice(['ok', 'ok', 'ok', 'ok', 'stop', 'raise']), wres()]
+    if r < 0.70:
+        return ['rread', who()] + rng.choice([['ret', val()], ['ret', val()], ['raise', rng.choice([0, 1, 3])], ['done']])
+    if r < 0.82:
         return ['assign', val()]
-    if r < 0.84:
+    if r < 0.85:
         return ['hidden', rng.randrange(3)]
     if r < 0.92:
         return ['announce', None if rng.random() < 0.5 else val(), rng.choice([0, 0, 1, 3, 6]), True]
@@ -748,7 +869,7 @@ def impl_conc(case, errs, tables, policy):
                     if op[0] == 'activate':
                         node.request(conns[op[1] % nconn], 'activate', conc_spec(op[2], op[3], npar), None)
                     else:
-                        do_op(m, case, pid, op, errs)
+                        do_op(m, case, pid, op, errs, node, conns)
                 s.yield_(('end',))        # makes the end of the thread's last segment visible in the trace
             for i, prog in enumerate(case['progs']):
                 s.spawn(f't{i}', runprog, (prog,))
@@ -784,7 +905,7 @@ def impl_conc(case, errs, tables, policy):
         req = {'p': 'C05', 'k': 'conc', 'eq': pairs, 'conv': conv, 'valid': valid, 'entries': entries,
                'conns': visit_order, 'tick': case['tick'], 'clock': clock0,
                'progs': [[{'activate': op[1] % nconn + 1, 'ps': conc_pids(op[2], op[3], npar)} if op[0] == 'activate' else
-                          {'p': pid, 'op': wire_op(ids, case, pid, op, errs),
+                          {'p': pid, 'op': wire_op(ids, case, pid, op, errs, nconn),
                            'ts': ts_wire(op[4], T0) if op[0] == 'announce' and len(op) > 4 else None}
                          for pid, op in prog] for prog in case['progs']],
                'act0': [[ci % nconn + 1, conc_pids(kind, target, npar)] for ci, kind, target in conc_pre(case)],
@@ -855,10 +976,15 @@ def gen_kernel(rng):
     by assignment, read, write, announce; failing read), sometimes a third thread that activates a second connection;
     small enough that all schedules with one preemption are enumerated"""
     cat = [['assign', 0], ['assign', 1], ['read', 'ret', 0], ['read', 'ret', 1], ['read', 'raise', 0],
-           ['write', 1, 'ok', ['none']], ['announce', 0, None, False]]
+           ['write', 1, 'ok', ['none']], ['announce', 0, None, False],
+           # requests of the connection that listens (0) or of the other one, also with a write_ that takes the value over
+           # and fails then
+           ['change', 0, 1, 'ok', ['none']], ['change', 0, 0, 'ok', ['raise', 2]], ['change', 1, 1, 'ok', ['ret', 2]],
+           ['inner', [1], ['change', 0, 0, 'ok', ['raise', 2]]], ['inner', [2], ['write', 1, 'ok', ['raise', 0]]],
+           ['rread', 0, 'ret', 1], ['inner', [1], ['read', 'raise', 0]]]
     params = [{'kind': rng.choice(['float', 'int', 'enum', 'string', 'floatres']), 'uu': rng.choice(['default', 'never', 2.0, 'always']),
-               'nodefault': False, 'has_write': rng.random() < 0.5, 'has_check': False, 'readonly': False}]
-    progs = [[[0, list(rng.choice(cat))]], [[0, list(rng.choice(cat))]]]
+               'nodefault': False, 'has_write': rng.random() < 0.7, 'has_check': False, 'readonly': False}]
+    progs = [[[0, json.loads(json.dumps(rng.choice(cat)))]], [[0, json.loads(json.dumps(rng.choice(cat)))]]]
     if rng.random() < 0.4:
         progs.append([[None, ['activate', 1, rng.choice(ACT_KINDS), 0]]])
     return {'params': params, 'mw': rng.choice([None, 1.0]), 'gw': rng.choice([0.0, 1.0]), 'nconn': 2, 'pre': [[0, 'all', 0]],
@@ -1175,7 +1301,7 @@ def impl_follow(case, errs, tables):
         ids = Ids(dts)
         ps = case['params'][0]
         _, nall = pool_size(ps['kind'])
-        conv, valid = oracle_tables(ids, 0, dts[0], [raw_of(case, 0, i) for i in range(nall)])
+        conv, valid = oracle_tables(ids, 0, dts[0], pool_closure(dts[0], [raw_of(case, 0, i) for i in range(nall)]))
         for pid in range(n):
             ids.vid(pid, mods[pid].parameters['p'].value)
         for e in errs:
@@ -1196,8 +1322,14 @@ def impl_follow(case, errs, tables):
         real_windows = [int(round(mods[pid].parameters['p'].omit_unchanged_within * TICKS)) for pid in range(n)]
         init = [cache_obs_of(ids, mods[pid], pid) for pid in range(n)]
         now = T0
-        ops, outs = [], []
-        for step in steps:
+        ops, outs, fsteps = [], [], []
+
+        def point(si, extra=()):
+            recv, other = drain_conns(ids, conns, fspec_pid)
+            caches = [cache_obs_of(ids, mods[pid], pid) for pid in range(n)]
+            outs.append({'recv': recv, 'other': other + list(extra), 'caches': caches, 'caches_x': [c[1] for c in caches],
+                         'step': si})
+        for si, step in enumerate(steps):
             dt, op = step[0], step[1]
             ts = step[2] if len(step) > 2 else None
             now += dt
@@ -1212,7 +1344,7 @@ def impl_follow(case, errs, tables):
                     failed = ['activate:' + str(reply[0])]
             else:
                 ops.append({'now': now, 'ts': ts_wire(ts, now) if op[0] == 'announce' else None,
-                            'op': wire_op(ids, case, 0, op, errs)})
+                            'op': wire_op(ids, case, 0, op, errs, len(conns))})
                 if op[0] == 'announce' and ts is not None:
                     _, vidx, eidx, validate = op
                     value, validate = announce_arg(dts[0], case, 0, vidx, eidx, validate)
@@ -1222,10 +1354,11 @@ def impl_follow(case, errs, tables):
                     except Exception:
                         pass
                 else:
-                    do_op(m, case, 0, op, errs)
-            recv, other = drain_conns(ids, conns, fspec_pid)
-            caches = [cache_obs_of(ids, mods[pid], pid) for pid in range(n)]
-            outs.append({'recv': recv, 'other': other + failed, 'caches': caches, 'caches_x': [c[1] for c in caches]})
+                    m.observe = lambda si=si: (point(si), fsteps.append([0, ['body']]))
+                    do_op(m, case, 0, op, errs, node, conns)
+                    m.observe = None
+            point(si, failed)
+            fsteps.append(list(step))
         main = next(st[1][1] for st in steps if st[1][0] == 'activate')
         for o in outs:
             o['msgs'] = o['recv'][main]
@@ -1259,7 +1392,7 @@ def impl_follow(case, errs, tables):
         req = {'p': 'C05', 'k': 'seqm', 'eq': pairs, 'conv': conv, 'valid': valid, 'entries': entries,
                'followers': followers, 'ops': ops, 'cids': list(range(1, len(conns) + 1))}
         return {'req': req, 'outs': outs, 'init': init, 'ex': ex, 'bad_law': bad_law, 'real_windows': real_windows, 'n': n,
-                'steps': steps}
+                'steps': steps, 'fsteps': fsteps}
     finally:
         mb.time = saved
         if 'node' in locals():
@@ -1283,7 +1416,7 @@ def compare_follow(run, ans):
 
 
 def judge_reqs_follow(run):
-    return stream_judge_reqs(run['steps'], run['outs'], [i[1] for i in run['init']], run['n'])
+    return stream_judge_reqs(run['fsteps'], run['outs'], [i[1] for i in run['init']], run['n'])
 
 
 def gen_follow(rng, big):
@@ -1307,7 +1440,7 @@ def gen_follow(rng, big):
 def follow_fails(ctx, case, errs, tables):
     run = impl_follow(case, errs, tables)
     jreqs = judge_reqs_follow(run)
-    return first_bad(jreqs, ctx.driver.batch([r[3] for r in jreqs]))
+    return first_bad(jreqs, ctx.driver.batch([r[3] for r in jreqs]), run['outs'])
 
 # ----------------------------------------------------------------------------------------
 def _tables(ctx):
@@ -1317,7 +1450,7 @@ def _tables(ctx):
 def seq_fails(ctx, case, errs, tables):
     run = impl_seq(case, errs, tables)
     jreqs = judge_reqs_seq(run)
-    return first_bad(jreqs, ctx.driver.batch([r[3] for r in jreqs]))
+    return first_bad(jreqs, ctx.driver.batch([r[3] for r in jreqs]), run['outs'])
 
 
 def run(ctx):
@@ -1369,7 +1502,7 @@ def run(ctx):
             res.count('seq.kind=' + ps['kind'])
             res.count('seq.uu=' + str(ps['uu']))
             nmsg = sum(len(o['msgs']) for o in r['outs'])
-            nsup = sum(1 for o, st in zip(r['outs'], r['steps']) if not o['msgs'] and st[1][0] != 'activate')
+            nsup = sum(1 for o, st in zip(r['outs'], r['fsteps']) if not o['msgs'] and st[1][0] != 'activate')
             nerr = sum(1 for o in r['outs'] for ve, _ in o['msgs'] if ve[0] == 'e')
             nrec = sum(1 for a, b in zip([{'cache_x': r['init_x']}] + r['outs'], r['outs'])
                        if a['cache_x'][0] == 'e' and b['cache_x'][0] == 'v')
@@ -1381,7 +1514,7 @@ def run(ctx):
             res.count('seq.activations=' + ('1' if nact == 1 else '2' if nact == 2 else '3+'))
             res.count('seq.activation-mid-history=' + ('yes' if late else 'no'))
             res.count('seq.snapshot-of=' + ('error' if any(st[1][0] == 'activate' and o['cache_x'][0] == 'e'
-                                                           for o, st in zip(r['outs'], r['steps'])) else 'value'))
+                                                           for o, st in zip(r['outs'], r['fsteps'])) else 'value'))
             if r['bad_law']:
                 res.count('seq.export-law-broken')
             if nsup and nerr and nrec:
@@ -1393,7 +1526,7 @@ def run(ctx):
                 diff = compare_seq(r, ans)
                 if diff:
                     res.disagreements.append({'case': {'kind': 'seq', 'case': case}, 'model': diff, 'impl': 'see replay'})
-            bad0 = first_bad(r['jreqs'], jds)
+            bad0 = first_bad(r['jreqs'], jds, r['outs'])
             if bad0 is not None:
                 small = case
                 if shrunk < 3:
@@ -1443,7 +1576,7 @@ def run(ctx):
                 diff = compare_follow(r, ans)
                 if diff:
                     res.disagreements.append({'case': {'kind': 'follow', 'case': case}, 'model': diff, 'impl': 'see replay'})
-            bad0 = first_bad(r['jreqs'], jds)
+            bad0 = first_bad(r['jreqs'], jds, r['outs'])
             if bad0 is not None:
                 small = case
                 if shrunk < 6:
@@ -1584,7 +1717,7 @@ def replay(ctx, rp):
         answers = ctx.driver.batch([r['req']] + [q[3] for q in jreqs])
         print('case  :', json.dumps(case['case']))
         for i, o in enumerate(r['outs']):
-            print(f'  step {i}: {r["steps"][i]} -> per connection {o["recv"]} cache {o["cache_x"]}@{o["ts"]}')
+            print(f'  step {o["step"]}: {r["fsteps"][i]} -> per connection {o["recv"]} cache {o["cache_x"]}@{o["ts"]}')
         print('model :', compare_seq(r, answers[0]) or 'agrees with the implementation')
         print('judge :', [(f'conn {ci + 1}', f'from step {first}', jd) for (ci, _, first, _), jd in zip(jreqs, answers[1:])])
         return 0 if all(a.get('bad') is None for a in answers[1:]) else 1
@@ -1594,7 +1727,7 @@ def replay(ctx, rp):
         answers = ctx.driver.batch([r['req']] + [q[3] for q in jreqs])
         print('case  :', json.dumps(case['case']))
         for i, o in enumerate(r['outs']):
-            print(f'  step {i}: {r["steps"][i]} -> per connection {o["recv"]} caches {o["caches_x"]}')
+            print(f'  step {o["step"]}: {r["fsteps"][i]} -> per connection {o["recv"]} caches {o["caches_x"]}')
         print('model :', compare_follow(r, answers[0]) or 'agrees with the implementation')
         print('judge :', [(f'conn {ci + 1}', f'param {pid}', f'from step {first}', jd)
                           for (ci, pid, first, _), jd in zip(jreqs, answers[1:])])
